@@ -96,7 +96,7 @@ def _task(kind, prop, tier, arg=None):
     return []
 
 
-QR = {'C11': [('C11', 'int'), ('C11', 'complex')], 'C01': [('C11', 'int'), ('C11', 'complex')], 'C12': [('C12', 'int'), ('C12', 'complex')], 'C13': [('C12', 'complex')]}
+QR = {'C02': [('C11', 'complex'), ('C12', 'complex')], 'C11': [('C11', 'int'), ('C11', 'complex')], 'C01': [('C11', 'int'), ('C11', 'complex')], 'C12': [('C12', 'int'), ('C12', 'complex')], 'C13': [('C12', 'complex')]}
 SWEEPS = {'C01': [('MPS', 'left'), ('MPS', 'right'), ('MPO', 'left'), ('MPO', 'right')], 'C02': [('MPS', 'left'), ('MPS', 'right'), ('compress', 'left'), ('compress', 'right')],
           'C13': [('compress', 'left'), ('compress', 'right')]}
 
